@@ -186,10 +186,19 @@ pub fn cache<'a>(data: &'a mut extensions::PresentData<'a>) -> RetFut<'a, ()> {
         *data.client_cache_preference = c;
     }
     if let Some(s) = preference.1 {
-        *data.server_cache_preference = s;
+        // A response which depends on the client's address (`allow-ips`) must never enter the
+        // server cache, also when `cache` comes after `allow-ips` on the same line.
+        if data.response.extensions().get::<NoServerCache>().is_none() {
+            *data.server_cache_preference = s;
+        }
     }
     ready(())
 }
+
+/// Marker in the [`Response::extensions`] of a response that must not be stored in the server
+/// cache, regardless of any later `cache` directive: the response isn't a function of the URI.
+#[derive(Debug, Clone, Copy)]
+struct NoServerCache;
 
 pub fn hide(
     #[cfg(feature = "templates")] template_cache: Arc<templates::Cache>,
@@ -263,6 +272,8 @@ pub fn ip_allow<'a>(data: &'a mut extensions::PresentData<'a>) -> RetFut<'a, ()>
             let error = default_error(StatusCode::NOT_FOUND, Some(data.host), None).await;
             *data.response = error.map(Into::into);
         }
+        // after the response may have been replaced
+        data.response.extensions_mut().insert(NoServerCache);
     })
 }
 
